@@ -50,7 +50,8 @@ def build_cases(tier):
     from .c05 import is_f05b
 
     for c in F.names_inline():
-        cases.append(dict(c, variants=[v for v in v32 if not v["tail_call_optimization"]], family=("W-F05b" if is_f05b(c["names"]) else c["family"])))
+        vv = [v for v in v32 if not v["tail_call_optimization"] and (c["family"] != "NAMESINL-TERM" or v["inline_functions"])]
+        cases.append(dict(c, variants=vv, family=("W-F05b" if is_f05b(c["names"]) else c["family"])))
     # parameters / globals that are re-assigned inside an (inlined or not) function: binding by alias vs by copy
     for c in F.constprop(tier):
         if c["tag"].startswith(("param", "global")):
